@@ -61,6 +61,44 @@ impl FlowControl {
     }
 }
 
+// ---- step relations: the postconditions of the writers, as named spec functions.  The SAME functions are
+// the `ensures` of the extracted bodies below and the transition relation of the history lemmas at the end.
+
+pub open spec fn step_inc_window(pre: FlowControl, sz: u32, post: FlowControl, ok: bool) -> bool {
+    &&& post.a() == pre.a()
+    &&& ok ==> post.w() == pre.w() + sz && post.w() <= 0x7fff_ffff
+    &&& !ok ==> post.w() == pre.w() && pre.w() + sz > 0x7fff_ffff
+}
+
+pub open spec fn step_dec_send_window(pre: FlowControl, sz: u32, post: FlowControl, ok: bool) -> bool {
+    &&& post.a() == pre.a()
+    &&& ok ==> post.w() == pre.w() - sz
+    &&& !ok ==> post.w() == pre.w() && pre.w() - sz < i32::MIN
+}
+
+pub open spec fn step_dec_recv_window(pre: FlowControl, sz: u32, post: FlowControl, ok: bool) -> bool {
+    &&& ok ==> post.w() == pre.w() - sz && post.a() == pre.a() - sz
+    &&& !ok ==> (pre.w() - sz < i32::MIN || pre.a() - sz < i32::MIN)
+}
+
+pub open spec fn step_send_data(pre: FlowControl, sz: u32, post: FlowControl, ok: bool) -> bool {
+    &&& ok ==> post.w() == pre.w() - sz && post.a() == pre.a() - sz
+    &&& ok && sz > 0 ==> post.w() >= 0
+    &&& !ok ==> pre.a() - sz < i32::MIN
+}
+
+pub open spec fn step_assign_capacity(pre: FlowControl, n: u32, post: FlowControl, ok: bool) -> bool {
+    &&& post.w() == pre.w()
+    &&& ok ==> post.a() == pre.a() + n
+    &&& !ok ==> post.a() == pre.a() && pre.a() + n > i32::MAX
+}
+
+pub open spec fn step_claim_capacity(pre: FlowControl, n: u32, post: FlowControl, ok: bool) -> bool {
+    &&& post.w() == pre.w()
+    &&& ok ==> post.a() == pre.a() - n
+    &&& !ok ==> post.a() == pre.a() && pre.a() - n < i32::MIN
+}
+
 // ---- the real functions ---------------------------------------------------------------------------
 
 impl Window {
@@ -120,46 +158,33 @@ impl FlowControl {
     //@extract src/proto/streams/flow_control.rs FlowControl::claim_capacity
     //@ret r
     //@spec     requires sz_ok(capacity),
-    //@spec     ensures
-    //@spec         final(self).w() == old(self).w(),
-    //@spec         r.is_ok() ==> final(self).a() == old(self).a() - capacity,
-    //@spec         r.is_err() ==> final(self).a() == old(self).a() && old(self).a() - capacity < i32::MIN,
+    //@spec     ensures step_claim_capacity(*old(self), capacity, *final(self), r.is_ok()),
     //@end
 
     //@extract src/proto/streams/flow_control.rs FlowControl::assign_capacity
     //@ret r
     //@spec     requires sz_ok(capacity),
-    //@spec     ensures
-    //@spec         final(self).w() == old(self).w(),
-    //@spec         r.is_ok() ==> final(self).a() == old(self).a() + capacity,
-    //@spec         r.is_err() ==> final(self).a() == old(self).a() && old(self).a() + capacity > i32::MAX,
+    //@spec     ensures step_assign_capacity(*old(self), capacity, *final(self), r.is_ok()),
     //@end
 
     //@extract src/proto/streams/flow_control.rs FlowControl::inc_window
     //@ret r
     //@spec     requires sz_ok(sz),
     //@spec     ensures
-    //@spec         final(self).a() == old(self).a(),
-    //@spec         r.is_ok() ==> final(self).w() == old(self).w() + sz && final(self).w() <= 0x7fff_ffff,
-    //@spec         r.is_err() ==> final(self).w() == old(self).w() && old(self).w() + sz > 0x7fff_ffff,
+    //@spec         step_inc_window(*old(self), sz, *final(self), r.is_ok()),
     //@spec         r.is_err() ==> r == Err::<(), Reason>(Reason::FLOW_CONTROL_ERROR),
     //@end
 
     //@extract src/proto/streams/flow_control.rs FlowControl::dec_send_window
     //@ret r
     //@spec     requires sz_ok(sz),
-    //@spec     ensures
-    //@spec         final(self).a() == old(self).a(),
-    //@spec         r.is_ok() ==> final(self).w() == old(self).w() - sz,
-    //@spec         r.is_err() ==> final(self).w() == old(self).w() && old(self).w() - sz < i32::MIN,
+    //@spec     ensures step_dec_send_window(*old(self), sz, *final(self), r.is_ok()),
     //@end
 
     //@extract src/proto/streams/flow_control.rs FlowControl::dec_recv_window
     //@ret r
     //@spec     requires sz_ok(sz),
-    //@spec     ensures
-    //@spec         r.is_ok() ==> final(self).w() == old(self).w() - sz && final(self).a() == old(self).a() - sz,
-    //@spec         r.is_err() ==> (old(self).w() - sz < i32::MIN || old(self).a() - sz < i32::MIN),
+    //@spec     ensures step_dec_recv_window(*old(self), sz, *final(self), r.is_ok()),
     //@end
 
     //@extract src/proto/streams/flow_control.rs FlowControl::send_data
@@ -168,11 +193,153 @@ impl FlowControl {
     //@spec     requires
     //@spec         sz_ok(sz),
     //@spec         sz == 0 || old(self).w() >= sz,
-    //@spec     ensures
-    //@spec         r.is_ok() ==> final(self).w() == old(self).w() - sz && final(self).a() == old(self).a() - sz,
-    //@spec         r.is_ok() && sz > 0 ==> final(self).w() >= 0,
-    //@spec         r.is_err() ==> old(self).a() - sz < i32::MIN,
+    //@spec     ensures step_send_data(*old(self), sz, *final(self), r.is_ok()),
     //@end
+}
+
+// ================================================================================================
+// History lemmas (composition arguments, unbounded: induction over the length of the history).
+// ================================================================================================
+
+// ---- C02: one send window (a stream's, or the connection's) over any history of events.
+//   credit = initial window + acknowledged SETTINGS deltas + WINDOW_UPDATE increments received
+//   sent   = flow-controlled bytes emitted
+// Send(n) carries the precondition that the emission contracts establish (pop_frame: len <= window_size()).
+pub enum SendEv {
+    Update(u32),        // WINDOW_UPDATE received            -> FlowControl::inc_window
+    SettingsUp(u32),    // INITIAL_WINDOW_SIZE raised by d    -> FlowControl::inc_window
+    SettingsDown(u32),  // INITIAL_WINDOW_SIZE lowered by d   -> FlowControl::dec_send_window
+    Send(u32),          // DATA of n bytes emitted            -> FlowControl::send_data
+}
+
+pub struct SendAcc {
+    pub fc: FlowControl,
+    pub credit: int,
+    pub sent: int,
+}
+
+pub open spec fn send_step(pre: SendAcc, e: SendEv, post: SendAcc) -> bool {
+    match e {
+        SendEv::Update(n) | SendEv::SettingsUp(n) => exists|ok: bool| {
+            &&& sz_ok(n)
+            &&& #[trigger] step_inc_window(pre.fc, n, post.fc, ok)
+            &&& post.sent == pre.sent
+            &&& ok ==> post.credit == pre.credit + n
+            &&& !ok ==> post.credit == pre.credit
+        },
+        SendEv::SettingsDown(n) => exists|ok: bool| {
+            &&& sz_ok(n)
+            &&& #[trigger] step_dec_send_window(pre.fc, n, post.fc, ok)
+            &&& post.sent == pre.sent
+            &&& ok ==> post.credit == pre.credit - n
+            &&& !ok ==> post.credit == pre.credit
+        },
+        SendEv::Send(n) => {
+            &&& sz_ok(n)
+            &&& (n == 0 || pre.fc.w() >= n)          // established by the emission contract
+            &&& step_send_data(pre.fc, n, post.fc, true)
+            &&& post.sent == pre.sent + n
+            &&& post.credit == pre.credit
+        },
+    }
+}
+
+pub open spec fn send_history(states: Seq<SendAcc>, evs: Seq<SendEv>) -> bool {
+    &&& states.len() == evs.len() + 1
+    &&& forall|i: int| 0 <= i < evs.len() ==> #[trigger] send_step(states[i], evs[i], states[i + 1])
+}
+
+pub open spec fn send_inv(s: SendAcc) -> bool {
+    s.fc.w() == s.credit - s.sent
+}
+
+pub proof fn lemma_C02_send_credit(states: Seq<SendAcc>, evs: Seq<SendEv>, k: int)
+    requires
+        send_history(states, evs),
+        send_inv(states[0]),
+        0 <= k <= evs.len(),
+    ensures
+        // the window is exactly credit - sent at every instant
+        send_inv(states[k]),
+        // every non-empty emission stayed within the credit granted so far and found a positive window; while
+        // the window is zero or negative (credit <= sent after a SETTINGS decrease) only zero-length DATA goes out
+        k > 0 ==> (evs[k - 1] matches SendEv::Send(n) ==> (n > 0 ==> states[k].sent <= states[k].credit && states[k - 1].fc.w() > 0)),
+    decreases k,
+{
+    if k > 0 {
+        lemma_C02_send_credit(states, evs, k - 1);
+        let i = k - 1;
+        assert(send_step(states[i], evs[i], states[i + 1]));
+    }
+}
+
+// ---- C03: one receive window level (stream or connection).
+//   target = configured window; f = bytes handed out and not released; a = fc.available; w = fc.window_size
+pub enum RecvEv {
+    Data(u32),       // DATA of sz flow-controlled bytes accepted -> FlowControl::send_data, in_flight += sz
+    Release(u32),    // application (or auto-release) returns n   -> in_flight -= n, FlowControl::assign_capacity
+    Announce,        // WINDOW_UPDATE of (a - w) sent              -> FlowControl::inc_window
+}
+
+pub struct RecvAcc {
+    pub fc: FlowControl,
+    pub in_flight: int,
+    pub target: int,
+}
+
+pub open spec fn recv_step(pre: RecvAcc, e: RecvEv, post: RecvAcc) -> bool {
+    &&& post.target == pre.target
+    &&& match e {
+        RecvEv::Data(sz) => {
+            &&& sz_ok(sz)
+            &&& pre.fc.w() >= sz                                   // else FLOW_CONTROL_ERROR, no step
+            &&& step_send_data(pre.fc, sz, post.fc, true)
+            &&& post.in_flight == pre.in_flight + sz
+        },
+        RecvEv::Release(n) => {
+            &&& sz_ok(n)
+            &&& n <= pre.in_flight                                  // else ReleaseCapacityTooBig, no step
+            &&& step_assign_capacity(pre.fc, n, post.fc, true)
+            &&& post.in_flight == pre.in_flight - n
+        },
+        RecvEv::Announce => {
+            &&& pre.fc.a() > pre.fc.w()
+            &&& pre.fc.a() - pre.fc.w() <= 0x7fff_ffff
+            &&& step_inc_window(pre.fc, (pre.fc.a() - pre.fc.w()) as u32, post.fc, true)
+            &&& post.in_flight == pre.in_flight
+        },
+    }
+}
+
+pub open spec fn recv_history(states: Seq<RecvAcc>, evs: Seq<RecvEv>) -> bool {
+    &&& states.len() == evs.len() + 1
+    &&& forall|i: int| 0 <= i < evs.len() ==> #[trigger] recv_step(states[i], evs[i], states[i + 1])
+}
+
+pub open spec fn recv_inv(s: RecvAcc) -> bool {
+    &&& s.fc.a() + s.in_flight == s.target      // nothing leaked, nothing created
+    &&& s.fc.w() <= s.fc.a()                    // never advertises more than is available
+    &&& s.in_flight >= 0
+}
+
+pub proof fn lemma_C03_recv_conserved(states: Seq<RecvAcc>, evs: Seq<RecvEv>, k: int)
+    requires
+        recv_history(states, evs),
+        recv_inv(states[0]),
+        0 <= k <= evs.len(),
+    ensures
+        recv_inv(states[k]),
+        // the advertised window never exceeds the configured size
+        states[k].fc.w() <= states[k].target,
+        // once everything has been released and announced, the window is back at its configured size
+        (states[k].in_flight == 0 && k > 0 && evs[k - 1] is Announce) ==> states[k].fc.w() == states[k].target,
+    decreases k,
+{
+    if k > 0 {
+        lemma_C03_recv_conserved(states, evs, k - 1);
+        let i = k - 1;
+        assert(recv_step(states[i], evs[i], states[i + 1]));
+    }
 }
 
 // vacuity guard: must FAIL (a contradictory prelude would make it verify)
